@@ -111,18 +111,6 @@ Fixpoint spill (cs : list nat) (l : list (option value)) (w : world) : list (opt
               spill r (upd_nth i (Some (VCell c)) l) w1
   end.
 
-(* the extra positional / named arguments supplied by *args and **kwargs (shared with nothing: Ref has its own rule) *)
-Definition star_args (star : option value) (w : world) : pres (list value) :=
-  match star with None => POk [] | Some v => elements v w end.
-Definition starstar_args (ss : option value) (w : world) : pres (list (string * value)) :=
-  match ss with
-  | None => POk []
-  | Some (VRef d) => match get_obj w d with
-                     | Some (ODict kvs _) => match kw_of_dict kvs with Some l => POk l | None => PErr end
-                     | _ => PErr end
-  | Some _ => PErr
-  end.
-
 Section VM.
   Variable cp : cprog.
   Variable fname : nat -> string.
@@ -131,6 +119,35 @@ Section VM.
 
   Definition of_pres {A} (r : pres A) (p : pos) (w : world) (k : A -> stepres) : stepres :=
     match r with POk a => k a | PErr => fail p false w | PUnsup t => Stop (VUnsup t) end.
+
+  (* calling the value fn with the flattened arguments: built-ins run to completion within the step,
+     a function of the program gets a new frame (Call / CallInternal up to the interpreter loop) *)
+  Definition call_value (f : frame) (rest : list frame) (g : genv) (w : world) (pc : nat) (st5 : list value)
+             (p : pos) (fn : value) (args : list value) (kwargs : list (string * value)) : stepres :=
+    let gow st w' := Next (set_frame (upd f pc st) rest g w') in
+    match fn with
+              | VBuiltin name => of_pres (call_builtin fname name None args kwargs w) p w (fun r => gow (fst r :: st5) (snd r))
+              | VMethod name recv => of_pres (call_builtin fname name (Some recv) args kwargs w) p w (fun r => gow (fst r :: st5) (snd r))
+              | VFun fid defaults free =>
+                  match find_code (cp_funs cp) fid with
+                  | None => Stop (VUnsup "internal:function-id")
+                  | Some fc =>
+                      if negb (cp_recursion cp) && existsb (fun fr => match fr_fid fr with Some i => Nat.eqb i fid | None => false end) (f :: rest)
+                      then fail p true w else
+                      match bind_args (fc_params fc) defaults args kwargs w with
+                      | PErr => fail p true w
+                      | PUnsup t => Stop (VUnsup t)
+                      | POk (params, w1) =>
+                          let l0 := pad_init (fc_nlocals fc) (map Some params) in
+                          let '(l1, w2) := spill (fc_cells fc) l0 w1 in
+                          let free' := filter (fun xc => str_in (fst xc) (fc_free fc)) free in
+                          let callee := {| fr_fid := Some fid; fr_code := fc_code fc; fr_pc := 0; fr_stack := [];
+                                           fr_locals := l1; fr_iters := []; fr_free := free' |} in
+                          Next {| vs_frames := callee :: upd f pc st5 :: rest; vs_g := g; vs_w := w2 |}
+                      end
+                  end
+              | _ => fail p false w
+              end.
 
   (* one instruction i, fetched at fr_pc f, in frame f with callers rest *)
   Definition exec_insn (i : insn) (f : frame) (rest : list frame) (g : genv) (w : world) : stepres :=
@@ -265,29 +282,7 @@ Section VM.
             of_pres (star_args sa w) p w (fun pos2 =>
               let args := (args ++ pos2)%list in
               let kwargs := (named ++ kw2)%list in
-              match fn with
-              | VBuiltin name => of_pres (call_builtin fname name None args kwargs w) p w (fun r => gow (fst r :: st5) (snd r))
-              | VMethod name recv => of_pres (call_builtin fname name (Some recv) args kwargs w) p w (fun r => gow (fst r :: st5) (snd r))
-              | VFun fid defaults free =>
-                  match find_code (cp_funs cp) fid with
-                  | None => Stop (VUnsup "internal:function-id")
-                  | Some fc =>
-                      if negb (cp_recursion cp) && existsb (fun fr => match fr_fid fr with Some i => Nat.eqb i fid | None => false end) (f :: rest)
-                      then fail p true w else
-                      match bind_args (fc_params fc) defaults args kwargs w with
-                      | PErr => fail p true w
-                      | PUnsup t => Stop (VUnsup t)
-                      | POk (params, w1) =>
-                          let l0 := pad_init (fc_nlocals fc) (map Some params) in
-                          let '(l1, w2) := spill (fc_cells fc) l0 w1 in
-                          let free' := filter (fun xc => str_in (fst xc) (fc_free fc)) free in
-                          let callee := {| fr_fid := Some fid; fr_code := fc_code fc; fr_pc := 0; fr_stack := [];
-                                           fr_locals := l1; fr_iters := []; fr_free := free' |} in
-                          Next {| vs_frames := callee :: upd f pc st5 :: rest; vs_g := g; vs_w := w2 |}
-                      end
-                  end
-              | _ => fail p false w
-              end))
+              call_value f rest g w pc st5 p fn args kwargs))
             end end end end end end
         | UNSUPPORTED t, _ => Stop (VUnsup t)
         | (RJMP _ | RCJMP _ | RITERJMP _ | RJMPB _ | BRK | CONT), _ => Stop (VStuck "pseudo-instruction")
